@@ -8,6 +8,7 @@
 """
 import copy
 import io
+import os
 import re
 import posixpath
 import sys
@@ -198,6 +199,14 @@ def run_step(fs, proc, step, hist):
     dump = fs.abs(step["dump"]) if step.get("dump") else None
     rec = {"entry": entry, "outcome": "ok", "failed_files": {}, "order": None}
     hist["steps"].append(rec)
+    saved_cwd = None
+    if step.get("rel_out") and entry in ("cli", "files") and not step.get("out_suffix") and posixpath.dirname(out) in fs.dirs:
+        # the output is named relative to the working directory, which lies on the simulated disk for this step
+        fs.rel_base = posixpath.dirname(out)
+        out = posixpath.basename(out) if step["rel_out"] == "bare" else "./" + posixpath.basename(out)
+        saved_cwd = (os.getcwd, os.getcwdb)
+        base = fs.rel_base
+        os.getcwd, os.getcwdb = (lambda: base), (lambda: base.encode())
     try:
         if entry == "cli":
             def cfg_sink(text):
@@ -270,6 +279,10 @@ def run_step(fs, proc, step, hist):
         rec["outcome"] = "exit:%s" % (e.code,)
     except Exception as e:
         rec["outcome"] = "raised:%s:%s" % (type(e).__name__, str(e)[:120])
+    finally:
+        if saved_cwd is not None:
+            os.getcwd, os.getcwdb = saved_cwd
+            fs.rel_base = None
 
 
 def run_pre(proc, item):
@@ -312,8 +325,25 @@ def run_proc(fs, pspec, share=None):
             if pspec.get("pre"):
                 # faults are armed only once the pre-history is over (it is not the run under observation)
                 fs.faults = [dict(f, fired=0) for f in (pspec.get("faults") or [])]
-            for step in pspec["steps"]:
-                run_step(fs, proc, step, hist)
+            if pspec.get("threads"):
+                # a threaded host application: each step is one caller thread with its own anonymizer; the seeded
+                # interleaver decides at which line of the package the baton moves (sim/threads.py)
+                from .threads import Interleaver
+                from .proc import REPO
+                il = Interleaver(pspec["threads"]["key"], len(pspec["steps"]), pspec["threads"].get("rate", 0.02), REPO)
+                hs = [{"steps": []} for _ in pspec["steps"]]
+                errs = il.run([(lambda st=st, h=h: run_step(fs, proc, st, h)) for st, h in zip(pspec["steps"], hs)])
+                for h in hs:
+                    hist["steps"].extend(h["steps"])
+                hist["thread_switches"], hist["thread_points"] = il.switches, il.points
+                for e in errs:
+                    if isinstance(e, (SimCrash, KeyboardInterrupt)):
+                        raise e
+                    if e is not None:
+                        hist.setdefault("thread_errors", []).append("%s: %s" % (type(e).__name__, e))
+            else:
+                for step in pspec["steps"]:
+                    run_step(fs, proc, step, hist)
     except SimCrash:
         hist["outcome"] = "crash"
     except KeyboardInterrupt:
